@@ -1,6 +1,7 @@
 import PeliteModel.Model.Exec
 import PeliteModel.Model.Scan
 import PeliteModel.Spec.Scan
+import PeliteModel.Lemmas.PeAddr
 /-!
 Lemmas about the interpreter model `Exec.exec` (C02 / C03 of src/pe64/scanner.rs and the facts C10
 needs about it): totality, fuel sufficiency / recursion depth, the prefix lemma and independence of
@@ -219,7 +220,7 @@ theorem exec_push {S : ScanI} {pat : List Atom} {fuel : Nat} {st : St} {m e skip
       match exec S pat fuel { st with pc := st.pc + 1 } 0xff 0 with
       | .ok (true, st') => exec S pat fuel { st' with cursor := wadd32 st.cursor (skipAmt S e skip) } 0xff 0
       | o => o := by
-  rw [exec]; simp only [hp]
+  rw [exec]; simp only [hp] <;> rfl
 
 theorem exec_pop {S : ScanI} {pat : List Atom} {fuel : Nat} {st : St} {m e : Nat}
     (hp : pat[st.pc]? = some .pop) :
@@ -239,7 +240,7 @@ theorem exec_case {S : ScanI} {pat : List Atom} {fuel : Nat} {st : St} {m e next
       | .ok (true, st') => exec S pat fuel st' m e
       | .ok (false, st') => exec S pat fuel { st' with pc := st.pc + 1 + next, cursor := st.cursor } m e
       | o => o := by
-  rw [exec]; simp only [hp]
+  rw [exec]; simp only [hp] <;> rfl
 
 theorem exec_brk {S : ScanI} {pat : List Atom} {fuel : Nat} {st : St} {m e next : Nat}
     (hp : pat[st.pc]? = some (.brk next)) :
@@ -292,10 +293,8 @@ theorem exec_prefix {S : ScanI} (hS : S.WF) (pat : List Atom) (hok : pat.all Ato
           | none => simp [hr] at h
           | some v =>
             obtain ⟨hv1, hv2⟩ := hS.read1 _ _ hr
-            simp only [hr] at h
-            split at h
-            · next hand =>
-              rw [if_pos hv1] at h
+            by_cases hand : v &&& 255 = b0 &&& 255
+            · simp only [hr, hand, if_true, hv1] at h
               simp only [and255] at hand
               have hb0 : b0 < 256 := by simpa [Atom.ok] using haok
               have hvb : v = b0 := by omega
@@ -307,7 +306,7 @@ theorem exec_prefix {S : ScanI} (hS : S.WF) (pat : List Atom) (hok : pat.all Ato
                 simp only [List.getElem?_cons_succ] at hb
                 have := ih _ _ _ _ h j b hb
                 simpa [Nat.add_assoc, Nat.add_comm 1 j] using this
-            · simp at h
+            · simp [hr, hand] at h
       | save slot =>
         rw [exec_simple hp rfl] at h
         simp only [step] at h
@@ -317,9 +316,10 @@ theorem exec_prefix {S : ScanI} (hS : S.WF) (pat : List Atom) (hok : pat.all Ato
         rw [exec_simple hp rfl] at h
         simp only [step] at h
         simp only [Scan.setupGo] at hb
-        split at h
-        · cases h
-        · exact ih _ _ _ _ h i b hb
+        by_cases hal : n < 32 ∧ st.cursor % 2 ^ n ≠ 0
+        · simp [hal] at h
+        · simp only [hal, if_false] at h
+          exact ih _ _ _ _ h i b hb
       | nop =>
         rw [exec_simple hp rfl] at h
         simp only [step] at h
@@ -494,5 +494,78 @@ theorem run_save_indep (S : ScanI) (pat : List Atom) (hnr : pat.all Scan.noRead 
   | panic s => cases h
   | ub s => cases h
   | diverge => cases h
+
+/-! ### the two implementations of `trait Scan` satisfy `ScanI.WF` -/
+
+theorem ofRaw_wf (f : Pe.Fmt) (b : Bytes) (hb : b.size < 4294967296) : (ofRaw f b).WF := by
+  constructor
+  intro rva v h
+  simp only [ofRaw] at h
+  split at h
+  · simp only [Option.some.injEq] at h
+    subst h
+    exact ⟨by omega, byteAt_lt _ _⟩
+  · cases h
+
+open Pelite.Pe in
+/-- what a successful `read` on a mapped view returned -/
+theorem ofView_read_view {v : Pe.View} (hk : v.kind = .view) {w rva x : Nat}
+    (h : (ofView v).read w rva = some x) : rva ≠ 0 ∧ rva + w ≤ v.b.size ∧ x = leN v.b w rva := by
+  simp only [ofView, View.slice, hk, sliceSection] at h
+  by_cases h0 : rva = 0
+  · simp [h0] at h
+  · have hp : alignedTo "slice_section:aligned_to" (v.img.base + rva) 1 = .ok true := by
+      simp [alignedTo_eq, Nat.mod_one]; decide
+    simp only [h0, if_false, hp] at h
+    split at h
+    · next r hr =>
+      split at hr
+      · next hc =>
+        simp only [Out.ok.injEq] at hr
+        subst hr
+        simp only [Option.some.injEq] at h
+        refine ⟨h0, ?_, h.symm⟩
+        have : v.b = v.img.bytes := rfl
+        rw [this]; omega
+      · cases hr
+    · cases h
+
+open Pelite.Pe in
+/-- what a successful `read` on a file view returned: the bytes of the first section whose virtual
+extent contains the rva -/
+theorem ofView_read_file {v : Pe.View} (hk : v.kind = .file) {w rva x : Nat}
+    (h : (ofView v).read w rva = some x) :
+    ∃ s o l, firstV v.secs rva = some s ∧ rangeOne v.b.size s rva w = .ok (o, l) ∧ x = leN v.b w o := by
+  simp only [ofView, View.slice, hk] at h
+  split at h
+  · next r hr =>
+    obtain ⟨_, _, _, o, l, hrf, _, rfl⟩ := (sliceFile_ok_iff_range _ _ _ _ _ _).1 hr
+    rw [rangeFile_eq] at hrf
+    simp only [Option.some.injEq] at h
+    cases hf : firstV v.secs rva with
+    | none => simp [hf] at hrf
+    | some s =>
+      simp only [hf] at hrf
+      exact ⟨s, o, l, rfl, hrf, h.symm⟩
+  · cases h
+
+open Pelite.Pe in
+/-- **`impl Scan for P: Pe`** is well behaved for every image below 4 GiB: a one-byte read that
+succeeds lies strictly below `u32::MAX` — on file views because the section's virtual end
+`va.wrapping_add(max(vs, rs))` is a `u32` above the rva, on mapped views because the rva is inside
+the buffer. -/
+theorem ofView_wf (v : Pe.View) (hsz : v.b.size < 4294967296) : (ofView v).WF := by
+  constructor
+  intro rva x h
+  cases hk : v.kind with
+  | view =>
+    obtain ⟨_, h2, rfl⟩ := ofView_read_view hk h
+    exact ⟨by omega, byteAt_lt _ _⟩
+  | file =>
+    obtain ⟨s, o, l, hf, _, rfl⟩ := ofView_read_file hk h
+    have hc := (containsRva_iff s rva).1 (firstV_some hf).2
+    refine ⟨?_, byteAt_lt _ _⟩
+    have : wadd32 s.va (max s.vs s.rs) < 4294967296 := by unfold wadd32; omega
+    omega
 
 end Pelite.Exec
